@@ -232,7 +232,27 @@ func addVirtualTableHelper(vTableMap map[string]struct{}, orgid int64) (bool, er
 	return true, nil
 }
 
+// MaxIndexNameLength is the longest index name that is accepted; the name is
+// used as a directory name and as one line of the virtual table file.
+const MaxIndexNameLength = 255
+
+// IsValidIndexName tells whether a client supplied index name can be used as
+// the name of a directory below the data directory and as one line of the
+// virtual table file: it is not empty, not "." or "..", at most
+// MaxIndexNameLength bytes long and contains no path separator, NUL or line
+// break.
+func IsValidIndexName(name string) bool {
+	if name == "" || name == "." || name == ".." || len(name) > MaxIndexNameLength {
+		return false
+	}
+	return !strings.ContainsAny(name, "/\\\x00\n\r")
+}
+
 func AddVirtualTable(tname *string, orgid int64) error {
+	if tname == nil || !IsValidIndexName(*tname) {
+		return fmt.Errorf("AddVirtualTable: invalid index name")
+	}
+
 	vTableMap := make(map[string]struct{})
 	vTableMap[*tname] = struct{}{}
 
